@@ -1310,23 +1310,37 @@ class NLargest(ReductionConstantDim):
         return self.chunk_kwargs
 
 
-def _nfirst(df, columns, n, ascending):
-    return df.sort_values(by=columns, ascending=ascending).head(n)
+def _nfirst(df, columns, n, ascending, na_position="last"):
+    return df.sort_values(
+        by=columns, ascending=ascending, na_position=na_position
+    ).head(n)
 
 
-def _nlast(df, columns, n, ascending):
-    return df.sort_values(by=columns, ascending=ascending).tail(n)
+def _nlast(df, columns, n, ascending, na_position="last"):
+    return df.sort_values(
+        by=columns, ascending=ascending, na_position=na_position
+    ).tail(n)
 
 
 class NFirst(NLargest):
-    _parameters = ["frame", "n", "_columns", "ascending", "split_every"]
-    _defaults = {"n": 5, "_columns": None, "ascending": None, "split_every": None}
+    _parameters = ["frame", "n", "_columns", "ascending", "split_every", "na_position"]
+    _defaults = {
+        "n": 5,
+        "_columns": None,
+        "ascending": None,
+        "split_every": None,
+        "na_position": "last",
+    }
     reduction_chunk = staticmethod(_nfirst)
     reduction_aggregate = staticmethod(_nfirst)
 
     @property
     def chunk_kwargs(self):
-        return {"ascending": self.ascending, **super().chunk_kwargs}
+        return {
+            "ascending": self.ascending,
+            "na_position": self.na_position,
+            **super().chunk_kwargs,
+        }
 
 
 class NLast(NFirst):
